@@ -79,7 +79,7 @@ pub fn check_pair(c: &Pair) -> Verdict {
 }
 
 fn pair_strategy(max_len: usize) -> BoxedStrategy<Pair> {
-    (gen::decimal(max_len, 5000), gen::sdigits(max_len), gen::gap_strategy(10_000), any::<bool>(), 0..12u8, gen::sdigits(40))
+    (gen::decimal(max_len, 5000), gen::sdigits(max_len), gen::gap_strategy(10_000), any::<bool>(), 0..16u8, gen::sdigits(40))
         .prop_map(|(a, bint, gap, dir, special, kint)| {
             let bscale = if dir { a.scale + gap as i64 } else { a.scale - gap as i64 };
             let b = match special {
@@ -109,6 +109,29 @@ fn pair_strategy(max_len: usize) -> BoxedStrategy<Pair> {
                 }
                 4 => b.negated(),
                 _ => a,
+            };
+            // the same relations with the OTHER operand at the finer scale (each Rem impl rescales the numerator or the
+            // denominator depending on the direction)
+            let (a, b) = match special {
+                12 => {
+                    // twin, divisor coarser: a = b written with g more zeros
+                    let g = (gap % 300) as usize;
+                    (D::new(format!("{}{}", b.int, "0".repeat(g)), b.scale + g as i64), b)
+                }
+                13 | 14 => {
+                    // exact multiple with the divisor at the finer scale: b' = b with g zeros, a = k * b at b's scale
+                    let k = crate::conv::bigint(&kint);
+                    let m = b.bigint() * k;
+                    let g = 1 + (gap % 40) as usize;
+                    (D::new(m.to_string(), b.scale), D::new(format!("{}{}", b.int, "0".repeat(g)), b.scale + g as i64))
+                }
+                15 => {
+                    // |a| = |b| - one unit of the finer operand / + one unit: just below and just above an exact multiple
+                    let g = (gap % 60) as usize;
+                    let fine: num_bigint::BigInt = b.bigint() * num_bigint::BigInt::from(10u8).pow(g as u32) + num_bigint::BigInt::from(if dir { 1 } else { -1 });
+                    (D::new(fine.to_string(), b.scale + g as i64), b)
+                }
+                _ => (a, b),
             };
             Pair { a, b }
         })
@@ -145,7 +168,9 @@ pub fn run(ctx: &Ctx) {
         move |i| {
             let gap = (i % (max_gap + 1)) as i64;
             let k = i / (max_gap + 1);
-            let (a, b) = ([ "982451653", "7", "123456789012345678901", "1000000007"][(i % 4) as usize], ["37", "48112959837082048697", "3", "999"][((i / 4) % 4) as usize]);
+            // operand pair from a hash of the index: every gap meets all 16 pairs over the sign/direction combinations and seeds
+            let h = crate::gen::SplitMix(i).next();
+            let (a, b) = (["982451653", "7", "123456789012345678901", "1000000007"][(h % 4) as usize], ["37", "48112959837082048697", "3", "999"][((h / 4) % 4) as usize]);
             let a = if k & 1 == 1 { format!("-{}", a) } else { a.to_string() };
             let b = if k & 2 == 2 { format!("-{}", b) } else { b.to_string() };
             if k & 4 == 4 { Some(Pair { a: D::new(a, gap), b: D::new(b, 0) }) } else { Some(Pair { a: D::new(a, 0), b: D::new(b, gap) }) }
@@ -155,9 +180,9 @@ pub fn run(ctx: &Ctx) {
     ctx.enumerated(
         "near-twin-sweep",
         "pair",
-        max_gap * 12 * 4,
+        max_gap * 12 * 4 * 2,
         true,
-        &format!("EXHAUSTIVE: every scale gap 1..={} x divisors {{1, 2, 8, 1024, 8e3, 2^64, 2^400, 3, 37, 999, 10^9+7, 2^32-1}} x dividend = divisor re-represented at the finer scale + {{0, 1, 12345, divisor-1}} units; sign alternates", max_gap),
+        &format!("EXHAUSTIVE: every scale gap 1..={} x divisors {{1, 2, 8, 1024, 8e3, 2^64, 2^400, 3, 37, 999, 10^9+7, 2^32-1}} x dividend = divisor re-represented at the finer scale + {{0, 1, 12345, divisor-1}} units, and mirrored (the DIVISOR re-represented at the finer scale, dividend = divisor + the same deltas at the coarse scale); sign alternates", max_gap),
         move |i| {
             let gap = 1 + (i % max_gap) as u32;
             let k = i / max_gap;
@@ -183,11 +208,23 @@ pub fn run(ctx: &Ctx) {
             };
             let ai = &bi * num_bigint::BigInt::from(10u8).pow(gap) + delta;
             let neg = i % 2 == 1;
+            if (k / 48) % 2 == 1 {
+                // mirrored: divisor written with `gap` extra zeros, dividend at the coarse scale
+                let delta: num_bigint::BigInt = match (k / 12) % 4 {
+                    0 => 0.into(),
+                    1 => 1.into(),
+                    2 => 12345.into(),
+                    _ => &bi - 1,
+                };
+                let ai = &bi + delta;
+                let b_fine = &bi * num_bigint::BigInt::from(10u8).pow(gap);
+                return Some(Pair { a: D::new(if neg { format!("-{}", ai) } else { ai.to_string() }, 0), b: D::new(b_fine.to_string(), gap as i64) });
+            }
             let a = D::new(if neg { format!("-{}", ai) } else { ai.to_string() }, gap as i64);
             Some(Pair { a, b: D::new(bi.to_string(), 0) })
         },
         check_pair,
     );
     let max_len = t.pick(400usize, 2000);
-    ctx.generated("random-pairs", "pair", t.pick(400_000, 10_000_000), "1..max digits, gaps 0..10^4 both directions, zero divisors, twins, exact multiples, a = -b", move || pair_strategy(max_len), check_pair);
+    ctx.generated("random-pairs", "pair", t.pick(400_000, 10_000_000), "1..max digits, gaps 0..10^4 both directions, zero divisors, twins and exact multiples with either operand at the finer scale, one unit off a multiple, a = -b", move || pair_strategy(max_len), check_pair);
 }
